@@ -40,6 +40,12 @@ pub fn doc_raws(spec: &Spec, ctx: &Ctx) -> Vec<Value> {
             }
         }
     }
+    // the special floats are always offered (guards must not depend on the seeded tail)
+    match spec.fam {
+        Fam::F32 => out.extend(crate::domain::f32_specials().into_iter().map(Value::F32)),
+        Fam::F64 => out.extend(crate::domain::f64_specials().into_iter().map(Value::F64)),
+        _ => {}
+    }
     if let Fam::Str = spec.fam {
         out.retain(|v| v.as_str().map(|s| s.len() <= 64).unwrap_or(true));
         for s in ["ß", "𝒳", "\t a ", " x ", "", "\"quoted\"", "back\\slash", "line\nbreak", "\u{0}", "İ", "ab", "abc", "abcd", "a@b", "AB C"] {
